@@ -118,6 +118,12 @@ class Origins:
             return ("ifexp", self.of(nid, e.test, depth + 1), self.of(nid, e.body, depth + 1), self.of(nid, e.orelse, depth + 1))
         if isinstance(e, ast.BinOp):
             return ("binop", type(e.op).__name__, self.of(nid, e.left, depth + 1), self.of(nid, e.right, depth + 1))
+        if isinstance(e, (ast.ListComp, ast.GeneratorExp, ast.SetComp)) and len(e.generators) == 1:
+            g = e.generators[0]
+            src = self.of(nid, g.iter, depth + 1)
+            if isinstance(e.elt, ast.Name) and isinstance(g.target, ast.Name) and e.elt.id == g.target.id:
+                return ("filter", src, tuple(norm_text(c) for c in g.ifs))       # same elements, possibly fewer
+            return ("comp", src, norm_text(e.elt))
         if isinstance(e, ast.BoolOp):
             return ("boolop", type(e.op).__name__, tuple(self.of(nid, v, depth + 1) for v in e.values))
         return ("expr", norm_text(e))
@@ -201,6 +207,10 @@ def show(o, depth=0) -> str:
         return f"({show(o[2])} {o[1]} {show(o[3])})"
     if k == "expr":
         return str(o[1])
+    if k == "filter":
+        return f"filter({show(o[1])})"
+    if k == "comp":
+        return f"[{o[2]} for .. in {show(o[1])}]"
     if k == "fstr":
         return "<f-string>"
     if k == "dict":
